@@ -146,10 +146,16 @@ func (p *Pool) solve(name, query string) *solveResult {
 		if p.timeoutS < first {
 			first = p.timeoutS
 		}
-		st, out, _ := runSolver(solvers[0], file, first)
-		res.all[solvers[0].name] = st
+		lead := solvers[0]
+		if strings.Contains(query, "fp.") {
+			// floating-point goals: cvc5 decides in a second what z3 needs tens of seconds for
+			lead = solvers[2]
+			first = p.timeoutS
+		}
+		st, out, _ := runSolver(lead, file, first)
+		res.all[lead.name] = st
 		if decisive(st) {
-			res.status, res.solver, res.output = st, solvers[0].name, out
+			res.status, res.solver, res.output = st, lead.name, out
 		} else {
 			type r struct {
 				sp  solverSpec
